@@ -14,7 +14,10 @@ RULE = (
     "the tokens after the command path (all placements for subsets of size <= 2 in the thorough tier) x handler that "
     "writes one tagged line per message level to both streams, asks a question with a default and optionally raises; "
     "plus the same switch tokens copied after '--'; tree: Hypothesis command trees with a valid generated line for one "
-    "of their commands (any depth, default sub-commands, aliases) and 1-4 switches inserted after the path. Non-trivial: >= 2 switches, a switch between two positionals, or a "
+    "of their commands (any depth, default sub-commands, aliases) and 1-4 switches inserted after the path; every run on a "
+    "drawn pair of output/error streams that do or do not claim ANSI support; session: 2-4 runs (0-2 switches each, own "
+    "stream pair each) on ONE application object, every run judged like a single run (non-trivial there: runs differ in "
+    "switches or stream capability). Non-trivial: >= 2 switches, a switch between two positionals, or a "
     "post-'--' copy. Distinct by hash of (line, switches, placements)."
 )
 ASSUMPTIONS = [
@@ -151,21 +154,40 @@ def fix_dash_v(tokens, line):
     return out
 
 
-def execute(line, tokens, raising, tree=None):
-    from clikit.args import ArgvArgs
-    from clikit.io.input_stream import StringInputStream
+def stream(capable):
+    """A buffered stream; capable=True makes it claim ANSI support like a terminal would."""
     from clikit.io.output_stream import BufferedOutputStream
 
+    if not capable:
+        return BufferedOutputStream()
+
+    class CapableStream(BufferedOutputStream):
+        def supports_ansi(self):
+            return True
+
+    return CapableStream()
+
+
+def execute(line, tokens, raising, tree=None, caps=(False, False), session=None):
+    """One run. session = (app, log) re-uses an application object (and its config) for several runs."""
+    from clikit.args import ArgvArgs
+    from clikit.io.input_stream import StringInputStream
+
     os.environ["COLUMNS"] = "80"
-    log = []
-    app = build_app(log, raising) if tree is None else build_tree_app(tree, log, raising)
-    out, err = BufferedOutputStream(), BufferedOutputStream()
+    if session is None:
+        log = []
+        app = build_app(log, raising) if tree is None else build_tree_app(tree, log, raising)
+    else:
+        app, log = session
+        del log[:]
+    out, err = stream(caps[0]), stream(caps[1])
     inp = StringInputStream("typed\n")
     status = app.run(ArgvArgs(["prog"] + tokens), inp, out, err)
     rest = inp.read_line()
     if isinstance(rest, bytes):
         rest = rest.decode()
-    return {"status": status, "out": out.fetch(), "err": err.fetch(), "log": log, "input_left": rest}, app
+    return {"status": status, "out": out.fetch(), "err": err.fetch(), "log": list(log), "input_left": rest,
+            "caps": list(caps)}, app
 
 
 def direct_help(app, cmd_name, ansi):
@@ -202,7 +224,8 @@ def judge(ctx, case, line, tokens, kinds, res, app, label, part="switches"):
         if helpk and version or quiet:
             return
         if helpk:
-            want = direct_help(app, line["cmd"], "ansi" in kinds and not both_ansi)
+            want = direct_help(app, line["cmd"], ("ansi" in kinds and not both_ansi)
+                               or ("ansi" not in kinds and "noansi" not in kinds and res["caps"][0]))
             if not both_ansi and out != want:
                 fail("C09.help", want, out, sig="page")
         else:
@@ -248,8 +271,16 @@ def judge(ctx, case, line, tokens, kinds, res, app, label, part="switches"):
                 fail("C09.ansi", "tagged lines carry SGR codes", [out, err], sig="not-decorated")
             if "noansi" in kinds and ("\x1b" in out or "\x1b" in err):
                 fail("C09.no-ansi", "no escape byte", [out, err], sig="escape")
-            if "ansi" not in kinds and "noansi" not in kinds and ("\x1b" in out or "\x1b" in err):
-                fail("C09.no-ansi", "buffered (non-tty) streams stay plain without --ansi", [out, err], sig="default-plain")
+            if "ansi" not in kinds and "noansi" not in kinds:
+                # without either switch each stream is decorated exactly when it supports ANSI
+                for name, text, cap in (("out", out, res["caps"][0]), ("err", err, res["caps"][1])):
+                    dec = ("\x1b[32m%s-normal\x1b[0m" % name) in text
+                    if cap and not dec:
+                        fail("C09.ansi", "%s stream supports ANSI: tagged lines carry SGR codes" % name, text,
+                             sig="capable-not-decorated")
+                    if not cap and "\x1b" in text:
+                        fail("C09.no-ansi", "%s stream without ANSI support stays plain without --ansi" % name, text,
+                             sig="default-plain")
         if (L + "info" + G) in out or (L + "/info" + G) in err:
             fail("C09.no-ansi", "markup never shows", [out, err], sig="markup")
 
@@ -262,6 +293,7 @@ def check_switches(ctx, case, part="switches"):
     between = False
     results = []
     tail = line["tail"]
+    caps = tuple(case.get("caps", (False, False)))
     for pi, placement in enumerate(case["placements"]):
         head = fix_dash_v(place(line, switches, placement), line)
         tokens = head + (["--"] + tail if tail is not None else [])
@@ -269,7 +301,7 @@ def check_switches(ctx, case, part="switches"):
             if t in TOKEN_KIND and 0 < i < len(head) - 1 and not head[i - 1].startswith("-") and not head[i + 1].startswith("-"):
                 between = True
         try:
-            res, app = execute(line, tokens, case["raise"], tree)
+            res, app = execute(line, tokens, case["raise"], tree, caps)
         except Exception as e:
             ctx.fail(part, "C09.position-invariance", case, "run returns", tokens, exc=e)
             return
@@ -288,8 +320,8 @@ def check_switches(ctx, case, part="switches"):
         plain_tokens = list(line["head"]) + ["--"] + (tail or [])
         copy_tokens = list(line["head"]) + ["--"] + (tail or []) + list(switches)
         try:
-            a, _ = execute(line, plain_tokens, case["raise"], tree)
-            b, _ = execute(line, copy_tokens, case["raise"], tree)
+            a, _ = execute(line, plain_tokens, case["raise"], tree, caps)
+            b, _ = execute(line, copy_tokens, case["raise"], tree, caps)
         except Exception as e:
             ctx.fail(part, "C09.after-separator", case, "run returns", copy_tokens, exc=e)
             return
@@ -307,14 +339,42 @@ def check_switches(ctx, case, part="switches"):
         elif bool(a["log"]) != bool(b["log"]):
             ctx.fail(part, "C09.after-separator", case, "same handler invocations", [a["log"], b["log"]], sig="handler")
     nt = len(switches) >= 2 or between or bool(case.get("tail_copy"))
-    ctx.case(part, case, nt, ["c09:" + k for k in kinds])
+    ctx.case(part, case, nt, ["c09:" + k for k in kinds] + ["c09:caps=%d%d" % (caps[0], caps[1])])
+
+
+def check_session(ctx, case):
+    """Several runs on ONE application object (one config, its cached parts re-used), each with its own switches
+    and its own pair of streams: every run is judged by the same per-run oracle as a single run."""
+    log = []
+    app = build_app(log, case["raise"])
+    hist = []
+    for i, run in enumerate(case["runs"]):
+        line = LINES[run["line"]]
+        switches = run["switches"]
+        kinds = {TOKEN_KIND[t]: t for t in switches}
+        head = fix_dash_v(place(line, switches, run["placement"]), line)
+        tokens = head + (["--"] + line["tail"] if line["tail"] is not None else [])
+        try:
+            res, _ = execute(line, tokens, case["raise"], None, tuple(run["caps"]), session=(app, log))
+        except Exception as e:
+            ctx.fail("session", "C09.position-invariance", case, "run %d returns" % i, tokens, exc=e)
+            return
+        judge(ctx, case, line, tokens, kinds, res, app, "run-%d" % i, "session")
+        hist.append((frozenset(kinds), tuple(run["caps"])))
+    kinds_seen = {k for ks, _ in hist for k in ks}
+    mixed = len({c for _, c in hist}) > 1
+    nt = len(case["runs"]) >= 2 and (mixed or len({ks for ks, _ in hist}) > 1)
+    ctx.case("session", case, nt, ["c09:session-" + k for k in kinds_seen] + (["c09:session-mixed-streams"] if mixed else []))
 
 
 def check_tree_switches(ctx, case):
     check_switches(ctx, case, part="tree")
 
 
-PARTS = {"switches": check_switches, "tree": check_tree_switches}
+PARTS = {"switches": check_switches, "tree": check_tree_switches, "session": check_session}
+
+
+CAPS = st.sampled_from([[False, False], [False, False], [True, True], [True, False], [False, True]])
 
 
 @st.composite
@@ -352,7 +412,7 @@ def tree_case(draw):
             pl.append(draw(st.sampled_from(pos)))
         placements.append(pl)
     return {"tree": tree, "line_spec": spec, "switches": switches, "placements": placements, "raise": draw(st.booleans()),
-            "tail_copy": False}
+            "tail_copy": False, "caps": draw(CAPS)}
 
 
 @st.composite
@@ -367,7 +427,19 @@ def case_for(draw, subset_index, line_index, n_placements=3):
     for _ in range(n_placements):
         placements.append([draw(st.sampled_from(legal_positions(line, t))) for t in switches])
     return {"line": line_index, "switches": switches, "placements": placements, "raise": draw(st.booleans()),
-            "tail_copy": draw(st.integers(0, 2)) == 0}
+            "tail_copy": draw(st.integers(0, 2)) == 0, "caps": draw(CAPS)}
+
+
+@st.composite
+def session_case(draw):
+    runs = []
+    for _ in range(draw(st.integers(2, 4))):
+        li = draw(st.integers(0, len(LINES) - 1))
+        kinds = draw(st.lists(st.sampled_from(KINDS), min_size=0, max_size=2, unique=True))
+        switches = [draw(st.sampled_from(SPELL[k])) for k in kinds]
+        placement = [draw(st.sampled_from(legal_positions(LINES[li], t))) for t in switches]
+        runs.append({"line": li, "switches": switches, "placement": placement, "caps": draw(CAPS)})
+    return {"raise": draw(st.booleans()), "runs": runs}
 
 
 def all_cases(draw_all=False):
@@ -396,10 +468,10 @@ def shard_all_placements(ctx, arg):
                     pos = [legal_positions(line, t) for t in spell]
                     placements = [list(p) for p in itertools.product(*pos)]
                     check_switches(ctx, {"line": li, "switches": list(spell), "placements": placements, "raise": False,
-                                         "tail_copy": True})
+                                         "tail_copy": True, "caps": [[False, False], [True, True], [True, False]][j % 3]})
 
 
-HYP = {"tree": (lambda ctx: tree_case(), check_tree_switches)}
+HYP = {"tree": (lambda ctx: tree_case(), check_tree_switches), "session": (lambda ctx: session_case(), check_session)}
 
 
 def run(ctx):
@@ -409,3 +481,4 @@ def run(ctx):
         ctx.parallel("shard_all_placements", [(i, 16) for i in range(16)])
     ctx.hyp(all_cases(), lambda c: check_switches(ctx, c), 200 if quick else 3000, salt=1)
     ctx.hyp_sharded("tree", 1600 if quick else 30000, salt=2)
+    ctx.hyp_sharded("session", 1600 if quick else 30000, salt=3)
